@@ -78,7 +78,7 @@ func selectedBy(w *World, np *NetPol, dir string) []string {
 		return r
 	}
 	for _, o := range w.Objs {
-		if o.Kind == "wl" && o.Wl.NS == np.NS && selMatchesGo(&np.PodSel, o.Wl.Labels) {
+		if o.Kind == "wl" && o.Wl.NS == np.EffNS() && selMatchesGo(&np.PodSel, o.Wl.Labels) {
 			r = append(r, wlPeerName(o.Wl))
 		}
 	}
@@ -87,7 +87,7 @@ func selectedBy(w *World, np *NetPol, dir string) []string {
 
 func governedIn(w *World, wl *Workload, dir string) bool {
 	for _, o := range w.Objs {
-		if o.Kind == "np" && o.Np.NS == wl.NS && npAffectsGo(o.Np, dir) && selMatchesGo(&o.Np.PodSel, wl.Labels) {
+		if o.Kind == "np" && o.Np.EffNS() == wl.NS && npAffectsGo(o.Np, dir) && selMatchesGo(&o.Np.PodSel, wl.Labels) {
 			return true
 		}
 	}
@@ -138,7 +138,7 @@ func genC14(r *Rng, id int, tier string) *Sx {
 		pa := nps(a)
 		var orig *NetPol
 		for _, q := range pa {
-			if q.NS == p.NS && q.Name == p.Name {
+			if q.EffNS() == p.EffNS() && q.Name == p.Name {
 				orig = q
 			}
 		}
@@ -217,7 +217,7 @@ func genC14(r *Rng, id int, tier string) *Sx {
 				continue
 			}
 			for _, o := range a.Objs {
-				if o.Kind == "wl" && o.Wl.NS == q.NS && selMatchesGo(&q.PodSel, o.Wl.Labels) {
+				if o.Kind == "wl" && o.Wl.NS == q.EffNS() && selMatchesGo(&q.PodSel, o.Wl.Labels) {
 					if governedIn(a, o.Wl, d) {
 						allUngov = false
 					} else {
